@@ -93,6 +93,15 @@ def check_memo_keys(ctx, rule: str, relpaths, min_sites: int = 1) -> int:
                     # a parameter whose value is fixed by the path condition of this cache site (separate caches per flag) is covered
                     fixed = {p for p in used for f in facts(node) if p in {x.id for x in ast.walk(ast.parse(f.text, mode="eval")) if isinstance(x, ast.Name)}}
                     missing = sorted(used - in_key - fixed)
+                    # a class-level dict (shared by all instances) must also be keyed by the instance state the computation reads
+                    if cache.startswith("self.") and _is_class_level(m, q, cache.split(".", 1)[1]):
+                        attrs = sorted({src(x) for x in walk_local(fn) if isinstance(x, ast.Attribute) and isinstance(x.ctx, ast.Load) and isinstance(x.value, ast.Name) and x.value.id == "self"
+                                        and src(x) != cache and not (isinstance(getattr(x, "_parent", None), ast.Call) and x._parent.func is x)})
+                        not_in_key = [a for a in attrs if a not in flows]
+                        ctx.check(not not_in_key, rule + "-shared", f"{rel}:{q}", f"{cache}[{src(key)[:40]}] vs instance state", site(node),
+                                  f"{cache} is a class attribute, i.e. one dict shared by all instances, but the cached computation reads the instance state {not_in_key} which is not part of the key: "
+                                  "a second instance (e.g. an emitter for another grammar) gets the results computed for the first one",
+                                  "instance state read by the computation is part of the key")
                     lossy = lossy_steps(fn, key)
                     ctx.check(not lossy, rule + "-lossy", f"{rel}:{q}", f"{cache}[{src(key)[:40]}] injective", site(node),
                               f"the memo key is built with the non-injective step(s) {lossy[:3]}: two different arguments that normalise to the same key share one cache entry, "
@@ -103,3 +112,14 @@ def check_memo_keys(ctx, rule: str, relpaths, min_sites: int = 1) -> int:
                               f"{missing} gets the result computed for the first one (e.g. the same constraint object evaluated under a second grammar)",
                               "every parameter read by the computation flows into the key")
     return n_sites
+
+
+def _is_class_level(m: Module, qualname: str, attr: str) -> bool:
+    cls_name = qualname.split(".")[0]
+    cls = m.get(cls_name)
+    if not isinstance(cls, ast.ClassDef):
+        return False
+    in_body = any((isinstance(st, ast.Assign) and any(isinstance(t, ast.Name) and t.id == attr for t in st.targets)) or (isinstance(st, ast.AnnAssign) and isinstance(st.target, ast.Name) and st.target.id == attr) for st in cls.body)
+    init = m.get(f"{cls_name}.__init__")
+    in_init = isinstance(init, ast.FunctionDef) and any(isinstance(n, ast.Attribute) and isinstance(n.ctx, ast.Store) and n.attr == attr and isinstance(n.value, ast.Name) and n.value.id == "self" for n in ast.walk(init))
+    return in_body and not in_init
